@@ -54,4 +54,6 @@ Definition run_all (bi : list name) (ns : list (list name)) (p : program) : stri
             ("sound", show_bool (sound_b bi ns p));
             ("precise", show_bool (precise_b bi ns p));
             ("exact", show_bool (exact_b bi ns p));
+            ("ustage", show_nat (ustage_of bi ns p));
+            ("unused_ok", show_bool (unused_sound_b bi ns p));
             ("trace", run_pysem bi ns p)].
